@@ -4,7 +4,7 @@ import os, re, subprocess
 HERE = os.path.dirname(os.path.dirname(os.path.abspath(__file__)))
 p = os.path.join(HERE, 'DESIGN.md')
 s = open(p).read()
-for tag, tool in (('FINDINGS', 'findings_table.py'), ('SEEDED', 'seeded_table.py')):
+for tag, tool in (('FINDINGS', 'findings_table.py'), ('SEEDED', 'seeded_table.py'), ('STATUS', 'status_table.py')):
     out = subprocess.run(['python3', os.path.join(HERE, 'tools', tool)], stdout=subprocess.PIPE, text=True).stdout
     s = re.sub(r'<!-- %s-BEGIN -->.*?<!-- %s-END -->' % (tag, tag),
                lambda m: '<!-- %s-BEGIN -->\n%s<!-- %s-END -->' % (tag, out, tag), s, flags=re.S)
